@@ -281,7 +281,7 @@ def putEntry : Db → Entry → Db
   | [], e => [e]
   | x :: xs, e => if x.key = e.key then e :: xs else x :: putEntry xs e
 
-/-- `storage.delete` -/
+/-- `storage.delete` (refused with `InvalidDatabase` for an index ≥ 16, see `loadExpiring`) -/
 def eraseKey (db : Db) (k : Bytes) : Db := db.filter fun e => !(e.key == k)
 
 /-- map insert: replace the value of an existing key in place, else append -/
@@ -483,7 +483,8 @@ def loadExpiring (fix : Fix) (now : Nat) (valid : Bool) (db : Db) (ty expiry : N
   if expiry > now then
     (loadTyped fix valid db ty (some expiry) bs).bind fun p r => .ok p.2 r []
   else if fix.dropExpired then
-    (loadTyped fix valid db ty none bs).bind fun p r => .ok (eraseKey p.2 p.1) r []
+    (loadTyped fix valid db ty none bs).bind fun p r =>
+      lift (if valid then .ok (eraseKey p.2 p.1) else .error .invalidDb) r
   else
     (loadTyped fix valid db ty none bs).bind fun p r => .ok p.2 r []
 
